@@ -23,6 +23,8 @@ def build_controller(cfg):
     else:
         pc, pp, sc = F.LinVec, {'A': A, 'g': cfg['g']}, generic_implicit
     sp = {'num_nodes': cfg['num_nodes'], 'quad_type': cfg['quad_type'], 'QI': cfg['QI'], 'initial_guess': cfg['initial_guess']}
+    if cfg.get('node_type'):
+        sp['node_type'] = cfg['node_type']
     lp = {'dt': cfg['dt'], 'restol': cfg['restol']}
     desc = {'problem_class': pc, 'problem_params': pp, 'sweeper_class': sc, 'sweeper_params': sp, 'level_params': lp, 'step_params': {'maxiter': cfg['maxiter']}}
     if cfg['levels'] == 2:
